@@ -522,6 +522,10 @@ def random_column(rng, enums, corrupt):
         col["quantization_matrix"] = matrix_text(rng, d, dh)
     if rng.random() < 0.7:
         col["name"] = rng.choice(["a", "b", "cfg", "column_C", "column_B", "x y", "é", "n%d" % rng.randrange(5)])
+        if rng.random() < 0.3:
+            # names are free text that ends up inside error messages: template / pattern metacharacters
+            col["name"] = rng.choice(["{}", "hd {1080p50}", "{0}{1}{2}", "a}b", "{", "{!x}", "{name}", "%s", "%d %(x)s", "100%",
+                                      "\\1", "$name", "${x}", "a' column: b", "{{}}", "{0.__class__}"]) + rng.choice(["", "", " %d" % rng.randrange(4)])
     for _ in range(corrupt):
         k = rng.randrange(8)
         if k == 0:
